@@ -471,6 +471,22 @@ pub fn corpus(tier: Tier) -> Vec<Project> {
     let mut p = Project::new(Config::simple("en", &["en"]));
     p.set_file(None, "en", e);
     out.push(p);
+    // configuration content: an unlisted default that an inherits entry names, namespaces, a custom directory
+    let mut cfg = Config { default: Some("en".into()), locales: Some(vec!["fr".into(), "de".into()]), ..Default::default() };
+    cfg.inherits = vec![("fr".into(), "en".into()), ("de".into(), "fr".into())];
+    cfg.locales_dir = Some("l10n".into());
+    let mut p = Project::new(cfg.clone());
+    for l in ["en", "fr", "de"] {
+        p.set_file(None, l, vec![("a".into(), st(&format!("[{l}.a]"))), ("b".into(), if l == "de" { Val::Null } else { st(&format!("[{l}.b]")) })]);
+    }
+    out.push(p);
+    let mut p = Project::new(cfg.with_namespaces(&["n1", "n2"]));
+    for ns in ["n1", "n2"] {
+        for l in ["en", "fr", "de"] {
+            p.set_file(Some(ns), l, vec![("a".into(), st(&format!("[{l}.{ns}.a]")))]);
+        }
+    }
+    out.push(p);
     // error projects: the error must not depend on order either
     let mut p = Project::new(Config::simple("en", &["en"]));
     p.set_file(None, "en", vec![("a".into(), s(vec![fk("b")])), ("b".into(), s(vec![fk("a")])), ("c".into(), s(vec![fk("nokey")]))]);
